@@ -53,6 +53,8 @@ def configs(tier, seed):
             rnd.shuffle(order)
             out.append({"kind": "monitor", "trg": [TRG[i] for i in c], "order": order,
                         "montrg": TRG[rnd.randrange(3)]})
+            if len(out) % 4 == 2 and n > 1:
+                out[-1]["names"] = "same" if len(out) % 8 == 2 else "none"
     for n in ((9, 17) if tier == "quick" else (9, 17, 33)):
         order = list(range(n))
         rnd.shuffle(order)
@@ -65,7 +67,9 @@ def configs(tier, seed):
 
 def maker(cfg):
     def make():
-        srcs = [event.Source(trigger=(event.Source.Trigger(t) if i % 2 else t), path=(f"s{i}",)) for i, t in enumerate(cfg["trg"])]
+        # source paths: distinct (default), all equal, or none at all (every input signal is then called "i")
+        path_of = {"same": lambda i: ("irq", "line"), "none": lambda i: ()}.get(cfg.get("names"), lambda i: (f"s{i}",))
+        srcs = [event.Source(trigger=(event.Source.Trigger(t) if i % 2 else t), path=path_of(i)) for i, t in enumerate(cfg["trg"])]
         em = event.EventMap()
         for i in cfg["order"]:
             em.add(srcs[i])
